@@ -3,8 +3,12 @@
 Monitored: two real amp.AMP peers over the deterministic in-memory network (E2).  Both issue
 commands concurrently; the responder behaviour is chosen by a `mode` argument carried in the
 question: answer at once / return a Deferred that the scheduler fires later in any order (value,
-declared error, undeclared exception, fatal declared error) / raise declared, undeclared or fatal
-errors at once / never answer; commands with requiresAnswer=False are mixed in.  The scheduler
+declared error, undeclared exception, fatal declared error, subclasses of the declared / fatal
+errors) / raise any of those at once / never answer.  Three command classes: Ask (declares errors
+and fatalErrors), Plain (declares and inherits none: every responder exception is undeclared), Tell
+(requiresAnswer=False).  Expected wire outcome by construction: declared or subclass-of-declared ->
+that declared code and, on the caller, exactly the declared class; anything else -> UNKNOWN ->
+UnknownRemoteError, after which the peer quits and the other pending calls fail with the loss reason.  The scheduler
 controls every delivery (1 byte .. everything), fires pending responder Deferreds, injects abrupt
 connection loss (both ends) or a graceful close, and keeps calling after the loss.
 
@@ -39,7 +43,8 @@ from vf.engines.netsim import Link
 LEVEL = "exploration"
 ENGINE = "E2-netsim"
 TECHNIQUE = "runtime monitoring: exactly-once + causal matching of callRemote results against the sniffed wire, with disconnect injection"
-RULE = ("(1) random sessions: 6..40 weighted scheduler actions (calls from either peer with 6 responder modes, 30% "
+RULE = ("(1) random sessions: 6..40 weighted scheduler actions (calls from either peer with 8 responder modes incl. "
+        "subclasses of declared/fatal errors, on commands with declared errors, without any declared errors, or without answer; 30% "
         "with a re-entrant follow-up call issued from the result callback/errback, "
         "deliveries of 1 byte/half/all, firing of pending responder Deferreds in any order with 4 outcomes, abrupt "
         "or graceful close, calls after the loss); (2) fault enumeration: random short scripts (2..5 calls, fires) "
@@ -52,11 +57,13 @@ SHARDS = {"quick": 4, "thorough": 16}
 FLOORS = {"sessions": 500, "calls": 3000, "deferreds_checked": 2500, "fired_by_answer": 800, "fired_by_connection_loss": 300,
           "fired_declared_error": 100, "fired_unknown_remote_error": 100, "calls_after_loss": 300, "responder_runs": 1500,
           "deferred_responders_fired": 200, "boundary_runs": 1500, "quit_closes": 100, "calls_with_3_outstanding": 100,
+          "errors_from_declared_subclass": 100, "errors_from_command_without_declared_errors": 100,
           "followups_during_connection_loss": 200, "followups_during_answer_delivery": 200, "followups_inside_callremote": 50}
 READY = True
 
-MODES = ("now", "later", "declared", "undeclared", "never", "fatal")
-HOWS = ("value", "declared", "undeclared", "fatal")
+MODES = ("now", "later", "declared", "undeclared", "never", "fatal", "declared-sub", "fatal-sub")
+HOWS = ("value", "declared", "undeclared", "fatal", "declared-sub", "fatal-sub")
+COMMANDS = ("Tell", "Ask", "Plain")  # label field `ra`: 0 = requiresAnswer False, 1 = errors declared, 2 = no errors declared
 
 
 class DeclaredError(Exception):
@@ -69,6 +76,26 @@ class FatalError(Exception):
 
 class Undeclared(Exception):
     pass
+
+
+class DeclaredSub(DeclaredError):
+    """Subclass of a declared error: declared too (Failure.trap semantics), travels as DECLARED."""
+
+
+class FatalSub(FatalError):
+    """Subclass of a declared fatal error."""
+
+
+EXC = {"declared": DeclaredError, "undeclared": Undeclared, "fatal": FatalError, "declared-sub": DeclaredSub, "fatal-sub": FatalSub}
+
+
+def wire_outcome(command, outcome):
+    """What must travel for a responder outcome, by construction of the command classes."""
+    if outcome in EXC:
+        if command == b"Plain":  # declares nothing: every exception is undeclared
+            return "undeclared"
+        return outcome.replace("-sub", "")
+    return outcome
 
 
 class Sniffer:
@@ -121,6 +148,10 @@ def classes():
         fatalErrors = {FatalError: b"FATAL"}
         requiresAnswer = False
 
+    class Plain(amp.Command):  # declares and inherits no errors at all
+        arguments = [(b"nonce", amp.Integer()), (b"mode", amp.Integer())]
+        response = [(b"nonce", amp.Integer())]
+
     class Peer(amp.AMP):
         def __init__(self, name, session):
             amp.AMP.__init__(self)
@@ -134,6 +165,10 @@ def classes():
         def tell(self, nonce, mode):
             return self.session.respond(self.name, nonce, mode)
         Tell.responder(tell)
+
+        def plain(self, nonce, mode):
+            return self.session.respond(self.name, nonce, mode)
+        Plain.responder(plain)
 
         def connectionLost(self, reason):
             s = self.session
@@ -152,7 +187,7 @@ def classes():
         globalLogBeginner.beginLoggingTo([logged.append], redirectStandardIO=False, discardBuffer=True)
     except Exception:
         pass
-    _k.update(amp=amp, Ask=Ask, Tell=Tell, Peer=Peer, logged=logged)
+    _k.update(amp=amp, Ask=Ask, Tell=Tell, Plain=Plain, Peer=Peer, logged=logged)
     return _k
 
 
@@ -218,15 +253,9 @@ class Session:
         if m == "now":
             r["outcome"] = "value"
             return {"nonce": nonce}
-        if m == "declared":
-            r["outcome"] = "declared"
-            raise DeclaredError("declared %d" % nonce)
-        if m == "undeclared":
-            r["outcome"] = "undeclared"
-            raise Undeclared("undeclared %d" % nonce)
-        if m == "fatal":
-            r["outcome"] = "fatal"
-            raise FatalError("fatal %d" % nonce)
+        if m in EXC:
+            r["outcome"] = m
+            raise EXC[m]("%s %d" % (m, nonce))
         d = Deferred()
         if m == "later":
             self.pending[side].append((nonce, d))
@@ -293,12 +322,12 @@ class Session:
         outstanding = sum(1 for c in self.calls.values() if c["side"] == name and c["ra"] and not c["fired"])
         issued_in = self.now()
         rec = {"side": name, "mode": MODES[mode], "ra": ra, "after_loss": was_lost, "fired": [], "returned": None, "wrote": 0,
-               "outstanding_before": outstanding, "follow": follow, "parent": parent, "issued_in": issued_in[0] if issued_in else None}
+               "outstanding_before": outstanding, "command": COMMANDS[ra], "follow": follow, "parent": parent, "issued_in": issued_in[0] if issued_in else None}
         self.calls[nonce] = rec
         self.push(("call", name, nonce))
         try:
             try:
-                d = peer.callRemote(k["Ask"] if ra else k["Tell"], nonce=nonce, mode=mode)
+                d = peer.callRemote(k[COMMANDS[ra]], nonce=nonce, mode=mode)
                 rec["returned"] = "deferred" if d is not None else "none"
             except Exception as e:
                 rec["returned"] = "raised %s: %s" % (type(e).__name__, e)
@@ -364,8 +393,7 @@ class Session:
             if how == "value":
                 self.guarded(d.callback, {"nonce": nonce})
             else:
-                exc = {"declared": DeclaredError, "undeclared": Undeclared, "fatal": FatalError}[how]("%s %d" % (how, nonce))
-                self.guarded(d.errback, Failure(exc))
+                self.guarded(d.errback, Failure(EXC[how]("%s %d" % (how, nonce))))
         finally:
             self.pop()
 
@@ -479,10 +507,13 @@ class Session:
                     bad("question-answered-twice", "two answer boxes for one question", nonce=nonce)
                 answered[nonce] = box
                 r = self.responders.get(nonce) or {}
-                want = r.get("outcome")
+                want = wire_outcome(q.get(b"_command"), r.get("outcome"))
                 got = ("value" if b"_answer" in box and box.get(b"nonce") == b"%d" % nonce else
                        {b"DECLARED": "declared", b"UNKNOWN": "undeclared", b"FATAL": "fatal"}.get(box.get(b"_error_code"), "other") if b"_error" in box else "wrong-nonce")
-                if got != want:
+                if got != want and got == "undeclared" and want in ("declared", "fatal") and r.get("outcome", "").endswith("-sub"):
+                    bad("declared-error-subclass-sent-as-unknown", "a responder failed with a subclass of a declared %serror; the peer answered UNKNOWN (and quits) instead of the declared code"
+                        % ("fatal " if want == "fatal" else ""), nonce=nonce, responder=r.get("outcome"), box=box)
+                elif got != want:
                     bad("answer-does-not-match-responder-outcome", "the answer written differs from what the responder produced", nonce=nonce, responder=want, wire=got, box=box)
             for nonce, q in asked.items():
                 r = self.responders.get(nonce) or {}
@@ -537,8 +568,13 @@ class Session:
                 else:
                     code = box.get(b"_error_code")
                     cls = {b"DECLARED": DeclaredError, b"FATAL": FatalError}.get(code, amp.UnknownRemoteError)
+                    ro = (self.responders.get(nonce) or {}).get("outcome") or ""
+                    if ro.endswith("-sub"):
+                        ctx.count("errors_from_declared_subclass")
+                    if c["command"] == "Plain":
+                        ctx.count("errors_from_command_without_declared_errors")
                     ctx.count("fired_unknown_remote_error" if cls is amp.UnknownRemoteError else "fired_declared_error")
-                    if kind != "err" or not isinstance(val.value, cls) or type(val.value) is not cls:
+                    if kind != "err" or not val.check(cls) or type(val.value) is not cls:
                         bad("wrong-error-delivered", "error answer %r did not arrive as %s" % (code, cls.__name__), nonce=nonce, got=(kind, repr(val)[:120]))
             else:
                 ctx.count("fired_by_connection_loss")
@@ -580,14 +616,15 @@ def choose(rng, s):
         if x <= 0:
             break
     if a == "call":
-        mode = rng.choice([0, 0, 0, 0, 1, 1, 1, 1, 2, 2, 4, 4, 3, 5]) if rng.random() < 0.93 else rng.randrange(6)
-        ra = 1 if rng.random() < 0.85 else 0
-        follow = rng.randint(1, 6) if ra and rng.random() < 0.3 else 0
+        mode = rng.choice([0, 0, 0, 0, 1, 1, 1, 1, 1, 2, 2, 6, 6, 4, 4, 3, 5, 7]) if rng.random() < 0.93 else rng.randrange(len(MODES))
+        x = rng.random()
+        ra = 0 if x < 0.13 else 2 if x < 0.33 else 1
+        follow = rng.randint(1, len(MODES)) if ra and rng.random() < 0.3 else 0
         return ("call", rng.choice("ab"), mode, ra, follow)
     if a.startswith("deliver"):
         return ("deliver", a[-1], rng.choice(["1", "half", "all", "all"]))
     if a.startswith("fire"):
-        return ("fire", a[-1], rng.randrange(8), rng.choice(["value", "value", "value", "declared", "undeclared", "fatal"]))
+        return ("fire", a[-1], rng.randrange(8), rng.choice(["value", "value", "value", "value", "declared", "declared-sub", "declared-sub", "undeclared", "fatal", "fatal-sub"]))
     if a.startswith("complete-close"):
         return ("complete-close", a[-1])
     return (a, rng.choice("ab"))
@@ -597,8 +634,9 @@ def gen_script(rng):
     """Short exchange for the fault enumeration: calls, a pump, fires, a pump."""
     labels = []
     for _ in range(rng.randint(2, 5)):
-        mode = rng.choice([0, 0, 1, 1, 2, 3, 4, 5]) if rng.random() < 0.9 else rng.randrange(6)
-        ra = 1 if rng.random() < 0.9 else 0
+        mode = rng.choice([0, 0, 1, 1, 2, 6, 3, 4, 5, 7]) if rng.random() < 0.9 else rng.randrange(len(MODES))
+        x = rng.random()
+        ra = 0 if x < 0.1 else 2 if x < 0.3 else 1
         labels.append(("call", rng.choice("ab"), mode, ra, rng.choice([1, 1, 2, 3, 5]) if ra and rng.random() < 0.35 else 0))
         if rng.random() < 0.3:
             labels.append(("deliver", rng.choice("ab"), rng.choice(["half", "all"])))
